@@ -1,0 +1,37 @@
+//! Read-only inspection hook for the verification harness in /verif.
+//!
+//! Compiled only with `--cfg cactusref_verif`.
+
+use alloc::vec::Vec;
+use core::ptr;
+
+use crate::link::Kind;
+use crate::Rc;
+
+impl<T> Rc<T> {
+    /// Snapshot of the adoption bookkeeping of a live object: one entry per
+    /// link with the address of the linked object's value (as returned by
+    /// [`Rc::as_ptr`]), the kind of link (0 forward, 1 backward, 2 loopback)
+    /// and its count.
+    #[doc(hidden)]
+    #[must_use]
+    pub fn __verif_links(this: &Self) -> Vec<(*const (), u8, usize)> {
+        // SAFETY: `this` is a live `Rc` so the `links` on its inner allocation
+        // are an inhabited `MaybeUninit`.
+        let links = unsafe { this.inner().links().borrow() };
+        links
+            .iter()
+            .map(|(link, &count)| {
+                let rcbox = link.as_ptr();
+                // SAFETY: only the address of the field is computed.
+                let value = unsafe { ptr::addr_of!((*rcbox).value) };
+                let kind = match link.kind() {
+                    Kind::Forward => 0,
+                    Kind::Backward => 1,
+                    Kind::Loopback => 2,
+                };
+                (value.cast::<()>(), kind, count)
+            })
+            .collect()
+    }
+}
